@@ -166,6 +166,15 @@ def run(tier, replay=None):
             if rc == -999:
                 return [(q, d0, None, "compiled", "souffle timeout (souffle -o, 15 min)")]
             if rc != 0 or not os.path.exists(exe):
+                # is it the components?  the original flat program through the same compiler
+                fdl = os.path.join(d0, "flat_orig.dl"); P0 = Ps[owner[q]]
+                open(fdl, "w").write(render.program(P0, src_clauses=P0["clauses"]))
+                rc0, so0, se0 = runcmd([build.SOUFFLE, "-o", os.path.join(d0, "flat_orig.exe"), fdl], timeout=900)
+                if rc0 != 0:
+                    res.count("compiled_left_out_flat_program_does_not_compile_either")
+                    res.cov.setdefault("side_observations", []).append(
+                        "souffle -o fails on the ORIGINAL flat program %s as well (not a component defect): %s" % (P0["id"], se0[-300:]))
+                    return []
                 return [(q, d0, None, "compiled", "compiling the component program failed rc=%s: %s" % (rc, se[-600:]))]
             outs = []
             for kk, cc in enumerate(c):
